@@ -553,12 +553,13 @@ type Pred struct {
 }
 
 type PkgSpec struct {
-	Funcs map[string]*FuncSpec
-	Preds map[string]*Pred
+	Funcs   map[string]*FuncSpec
+	Preds   map[string]*Pred
+	Regexps map[string][]*CExpr // global regexp variable -> assumed facts over s and match(s)
 }
 
 var clauseKeywords = map[string]bool{"func": true, "pred": true, "returns": true, "requires": true, "ensures": true,
-	"invariant": true, "decreases": true, "modifies": true, "loop": true, "pure": true, "trusted": true, "end": true}
+	"invariant": true, "decreases": true, "modifies": true, "loop": true, "pure": true, "trusted": true, "end": true, "regexp": true}
 
 // collectContractLines extracts the "//@" lines of a file, joining continuation lines.
 func collectContractLines(f *ast.File) []string {
@@ -619,7 +620,7 @@ func parseLabelTags(rest string) (label string, tags []string, expr string) {
 }
 
 func parsePkgSpec(pkgName string, files []*ast.File, fileNames []string) (*PkgSpec, error) {
-	ps := &PkgSpec{Funcs: map[string]*FuncSpec{}, Preds: map[string]*Pred{}}
+	ps := &PkgSpec{Funcs: map[string]*FuncSpec{}, Preds: map[string]*Pred{}, Regexps: map[string][]*CExpr{}}
 	for fi, f := range files {
 		lines := collectContractLines(f)
 		var cur *FuncSpec
@@ -655,6 +656,19 @@ func parsePkgSpec(pkgName string, files []*ast.File, fileNames []string) (*PkgSp
 					return nil, fmt.Errorf("%s: pred %s: %v", fileNames[fi], name, err)
 				}
 				ps.Preds[name] = &Pred{Name: name, Params: params, Body: body}
+				cur = nil
+			case kw == "regexp":
+				// regexp sha1Regexp: match(s) ==> len(s) >= 40
+				i := strings.Index(rest, ":")
+				if i < 0 {
+					return nil, fmt.Errorf("%s: bad regexp line: %s", fileNames[fi], l)
+				}
+				name := strings.TrimSpace(rest[:i])
+				e, err := parseCExpr(rest[i+1:])
+				if err != nil {
+					return nil, fmt.Errorf("%s: regexp %s: %v", fileNames[fi], name, err)
+				}
+				ps.Regexps[name] = append(ps.Regexps[name], e)
 				cur = nil
 			case kw == "func":
 				key := strings.TrimSpace(rest)
